@@ -1,2 +1,4 @@
 pub mod flow;
 pub mod rxsim;
+pub mod txsim;
+pub mod memsim;
